@@ -90,9 +90,27 @@ class sx_memoryview(metaclass=_MemoryViewMeta):
     pass
 
 
+class _IntMeta(type):
+    def __instancecheck__(cls, x):
+        return isinstance(x, (builtins.int, SInt, SWord))
+
+    def __call__(cls, *a, **k):
+        if len(a) == 1 and not k and isinstance(a[0], (SInt, SWord)):
+            x = a[0]
+            if isinstance(x, SInt) and not x.e.is_int():
+                raise Unencodable('int() of a symbolic real')
+            return x
+        return builtins.int(*a, **k)
+
+
+class sx_int(metaclass=_IntMeta):
+    '''int() that leaves symbolic integers symbolic instead of enumerating them.'''
+    from_bytes = builtins.int.from_bytes
+
+
 def sx_isinstance(x, cls):
     if isinstance(x, (SInt, SWord)):
-        if cls is int or (isinstance(cls, tuple) and int in cls):
+        if cls is int or cls is sx_int or (isinstance(cls, tuple) and (int in cls or sx_int in cls)):
             return True
     return builtins.isinstance(x, cls)
 
@@ -514,6 +532,7 @@ class _Loader(importlib.machinery.SourceFileLoader):
         d['bytearray'] = sx_bytearray
         d['memoryview'] = sx_memoryview
         d['isinstance'] = sx_isinstance
+        d['int'] = sx_int
         if module.__name__ in NO_ORDER_MODULES:
             d['sorted'] = sx_sorted_unordered
         super().exec_module(module)
